@@ -1,6 +1,6 @@
 import os
 from abc import ABC, abstractmethod
-from collections.abc import Iterable
+from collections.abc import Iterable, Iterator
 from typing import Generic, TypeVar
 
 from guppylang_internals.cfg.bb import BB, VariableStats, VId
@@ -26,6 +26,34 @@ else:
 
 # Analysis result is a mapping from basic blocks to lattice values
 Result = dict[BB, T]
+
+
+class _Worklist:
+    """Worklist of basic blocks with set semantics and first-in, first-out order.
+
+    A plain `set` of BBs is popped in memory-address order. The analysis results do
+    not depend on that order, but the evidence recorded alongside them (which use of
+    a variable is reported, in which order variables are listed) does, so diagnostics
+    could differ between runs of the same program.
+    """
+
+    def __init__(self, bbs: Iterable[BB]) -> None:
+        self._bbs = dict.fromkeys(bbs)
+
+    def __len__(self) -> int:
+        return len(self._bbs)
+
+    def __iter__(self) -> Iterator[BB]:
+        return iter(self._bbs)
+
+    def pop(self) -> BB:
+        bb = next(iter(self._bbs))
+        del self._bbs[bb]
+        return bb
+
+    def update(self, bbs: Iterable[BB]) -> None:
+        for bb in bbs:
+            self._bbs.setdefault(bb)
 
 
 class Analysis(Generic[T], ABC):
@@ -72,7 +100,7 @@ class ForwardAnalysis(Generic[T], Analysis[T], ABC):
             bbs = [bb for bb in bbs if bb.reachable]
         vals_before = {bb: self.initial() for bb in bbs}  # return value
         vals_after = {bb: self.apply_bb(vals_before[bb], bb) for bb in bbs}  # cache
-        queue = set(bbs)
+        queue = _Worklist(bbs)
         queue = _verif_queue(queue)
         while len(queue) > 0:
             bb = queue.pop()
@@ -106,7 +134,7 @@ class BackwardAnalysis(Generic[T], Analysis[T], ABC):
         Returns a mapping from basic blocks to lattice values at the start of each BB.
         """
         vals_before = {bb: self.initial() for bb in bbs}
-        queue = set(bbs)
+        queue = _Worklist(reversed(list(bbs)))
         queue = _verif_queue(queue)
         while len(queue) > 0:
             bb = queue.pop()
